@@ -103,4 +103,65 @@ example : rlpDecodeString [0xb8, 0x01, 0x61] = .err .nonCanonical := by decide
 example : rlpDecodeString (0xb9 :: 0x00 :: 0x38 :: List.replicate 56 0x61) = .err .nonCanonical := by decide
 example : rlpDecodeString [0x83, 0x64, 0x6f, 0x67, 0x00] = .err .trailingBytes := by decide
 
+/-- `DecodeList` is shallow (it returns the encoded items), so the list statements are over *frames*:
+    every canonical encoding of a sequence of frames is accepted and yields exactly those frames. -/
+theorem list_accepts_canonical (items : List Bytes) (hfr : ∀ f ∈ items, IsFrame f)
+    (hlen : items.flatten.length ≤ maxLongLength) :
+    rlpDecodeList (encodeList items) = .ok items :=
+  rlpDecodeList_encodeList items hfr hlen
+
+/-- the frames `83 64 6f 67` ("dog"), `05` and `c0` (empty list), and their list `c6 83 64 6f 67 05 c0` -/
+example : IsFrame [0x83, 0x64, 0x6f, 0x67] := .inr ⟨[0x64, 0x6f, 0x67], by decide, .inl (by decide)⟩
+example : IsFrame [0x05] := .inl ⟨5, rfl, by decide⟩
+example : IsFrame [0xc0] := .inr ⟨[], by decide, .inr (by decide)⟩
+example : encodeList [[0x83, 0x64, 0x6f, 0x67], [0x05], [0xc0]] = [0xc6, 0x83, 0x64, 0x6f, 0x67, 0x05, 0xc0] := by
+  decide
+example : rlpDecodeList (encodeList [[0x83, 0x64, 0x6f, 0x67], [0x05], [0xc0]]) =
+    .ok [[0x83, 0x64, 0x6f, 0x67], [0x05], [0xc0]] :=
+  list_accepts_canonical _
+    (by
+      intro f hf
+      simp only [List.mem_cons, List.mem_nil_iff, or_false] at hf
+      rcases hf with rfl | rfl | rfl
+      · exact .inr ⟨[0x64, 0x6f, 0x67], by decide, .inl (by decide)⟩
+      · exact .inl ⟨5, rfl, by decide⟩
+      · exact .inr ⟨[], by decide, .inr (by decide)⟩)
+    (by decide)
+/-- long form: twenty frames `82 61 62` (60 payload bytes, list header `f8 3c`) through the theorem -/
+example : rlpDecodeList (encodeList (List.replicate 20 [0x82, 0x61, 0x62])) =
+    .ok (List.replicate 20 [0x82, 0x61, 0x62]) :=
+  list_accepts_canonical _
+    (by
+      intro f hf
+      rw [List.eq_of_mem_replicate hf]
+      exact .inr ⟨[0x61, 0x62], by decide, .inl (by decide)⟩)
+    (by decide)
+
+/-- Nothing else is accepted: an accepted input is the canonical list encoding of the returned items,
+    and every returned item is a frame. -/
+theorem list_rejects_rest (inp : Bytes) (items : List Bytes) (h : rlpDecodeList inp = .ok items) :
+    inp = encodeList items ∧ ∀ f ∈ items, IsFrame f :=
+  ⟨(rlpDecodeList_inv inp items h).1, (rlpDecodeList_inv inp items h).2.1⟩
+
+theorem list_accepted_size (inp : Bytes) (items : List Bytes) (h : rlpDecodeList inp = .ok items) :
+    items.flatten.length ≤ maxLongLength :=
+  (rlpDecodeList_inv inp items h).2.2
+
+example : rlpDecodeList [0xc4, 0x83, 0x64, 0x6f, 0x67] = .ok [[0x83, 0x64, 0x6f, 0x67]] ∧
+    [0xc4, 0x83, 0x64, 0x6f, 0x67] = encodeList [[0x83, 0x64, 0x6f, 0x67]] := by decide
+
+/-- An input that is not the canonical encoding of a sequence of frames is a returned (user) error. -/
+theorem list_noncanonical_is_user_error (inp : Bytes)
+    (h : ∀ items, (∀ f ∈ items, IsFrame f) → inp ≠ encodeList items) :
+    ∃ e, rlpDecodeList inp = .err e := by
+  rcases rlpDecodeList_no_panic inp with ⟨items, hs⟩ | he
+  · exact absurd (list_rejects_rest inp items hs).1 (h items (list_rejects_rest inp items hs).2)
+  · exact he
+
+/-- item overruns the list payload, long form for a short payload, truncated item, trailing byte -/
+example : rlpDecodeList [0xc3, 0x83, 0x64, 0x6f, 0x67] = .err .listSizeMismatch := by decide
+example : rlpDecodeList [0xf8, 0x01, 0x05] = .err .nonCanonical := by decide
+example : rlpDecodeList [0xc4, 0x84, 0x64, 0x6f, 0x67] = .err .incompleteInput := by decide
+example : rlpDecodeList [0xc1, 0x05, 0x00] = .err .trailingBytes := by decide
+
 end Verif.Properties.C46
